@@ -1,4 +1,5 @@
 import Proofs.Props.C01
+import Proofs.Props.C08
 import Mathlib.Analysis.SpecialFunctions.Integrals.Basic
 /-!
 # C02 — Solutions reproduce exact results: PY hard spheres and the dilute limit   (PARTIAL)
@@ -78,6 +79,23 @@ theorem dilute_closures_partial (u σ r : ℝ) :
   · simp [closureAt, closureFormula]; ring
   · intro h k; rw [C09.core_branch k σ r 0 u h]; ring
   · intro h; simp [closureAt, closureFormula, h]; ring
+
+/-- the reported second virial coefficient without extrapolation, `−ĥ(k₀)/2`, for a real-space `h` with samples `f_i`
+(in the dilute limit `f = e^{-u/kT} − 1`) is `−2π dr Σ r_i f_i sin(k₀ s_i)/k₀`, `s_i = r_i − dr/2`: the Riemann sum of
+`−2π ∫ f r² dr` up to the factor `sin(k₀ s)/(k₀ s)` (→ 1 as `k₀ → 0`, `C08.k_to_zero`) -/
+theorem b2_riemann_partial (d : Dom ℝ) (hd : C07.DInv d) (f : Array ℝ) :
+    -(1/2 : ℝ) * (d.toFourier f)[0]! =
+      -(2 * π * d.dr) * ∑ i ∈ range d.length, (((i : ℝ) + 1) * d.dr) * f[i]! *
+        (Real.sin (d.dk * ((((i : ℝ) + 1) * d.dr) - d.dr / 2)) / d.dk) := by
+  have hdk0 : d.dk ≠ 0 := by
+    obtain ⟨hN, hdr, hdk⟩ := hd
+    have hNr : (d.length : ℝ) ≠ 0 := by exact_mod_cast hN.ne'
+    rw [hdk]; exact div_ne_zero pi_ne_zero (mul_ne_zero hdr hNr)
+  rw [C08.toFourier_riemann d hd f 0 hd.1]
+  simp only [Nat.cast_zero, zero_add, one_mul]
+  rw [Finset.mul_sum, Finset.mul_sum, Finset.mul_sum]
+  apply Finset.sum_congr rfl; intro i _
+  field_simp; ring
 
 /-- the analytic reference values are mutually consistent: the contact value is `−c(1⁻)` (continuity of `γ` across
 the core edge, where `g = 0` inside and `c = 0` outside) -/
